@@ -126,6 +126,10 @@ impl Freelist {
     // frees all pages from old transactions that have lower ids than the given tx_id
     pub(crate) fn release(&mut self, tx_id: u64) {
         vpoint!("fl:release", bound = tx_id, npending = self.pending_pages.len());
+        #[cfg(jammdb_verif)]
+        for (t, pages) in self.pending_pages.iter() {
+            vpoint!("fl:pending", tx = *t, n = pages.len());
+        }
         let pending_ids: Vec<u64> = self.pending_pages.keys().cloned().collect();
         for other_tx_id in pending_ids {
             if other_tx_id < tx_id {
@@ -137,6 +141,15 @@ impl Freelist {
                 break;
             }
         }
+        #[cfg(jammdb_verif)]
+        for (t, pages) in self.pending_pages.iter() {
+            vpoint!("fl:pending_left", tx = *t, n = pages.len());
+        }
+        vpoint!(
+            "fl:released",
+            npending = self.pending_pages.len(),
+            nfree = self.free_pages.len()
+        );
     }
 
     pub(crate) fn allocate(&mut self, num_pages: usize) -> Option<PageID> {
